@@ -38,6 +38,7 @@ type Thr struct {
 	frames   []*Frame
 	done     bool
 	sleeping bool
+	hashing  bool // inside a long stubbed operation (two visible events: entry and completion)
 }
 
 type MuState struct {
@@ -161,7 +162,7 @@ func (st *State) clone() *State {
 		n.mus[k] = v
 	}
 	for i, t := range st.threads {
-		nt := &Thr{done: t.done, sleeping: t.sleeping}
+		nt := &Thr{done: t.done, sleeping: t.sleeping, hashing: t.hashing}
 		if i != st.cur {
 			nt.frames = cloneFrames(t.frames)
 		}
